@@ -88,6 +88,17 @@ Proof.
 Qed.
 Print Assumptions C08_shift_is_sub.
 
+(* C08_leaf_conversion — the conversion at an elementary symbol (tree.py:469-492: a value becomes the argument
+   `value = e`, the arguments of a class modification are taken as they are) preserves what the specification
+   looks up: for an argument aimed at component n, the specification's sub-modifiers of n and the entries of
+   the converted arguments give the same expression for every attribute (scopes aside: that the inner
+   arguments lose the scope is the recorded finding C08_scope_refuted). *)
+Theorem C08_leaf_conversion (env sc : option path) (n : ident) (ms : list mval) (a : ident) :
+  option_map entry_expr (attr_lookup a (sub_mods n (flat_arg env (MArg sc [n] ms)))) =
+  option_map entry_expr (attr_lookup a (flat_args env (to_symbol_mods (MArg sc [n] ms)))).
+Proof. exact (leaf_conversion env sc n ms a). Qed.
+Print Assumptions C08_leaf_conversion.
+
 (* recorded defect: model C Real x; end C; model B C c; end B; model M B b(<m>); end M;
    <m> = c.x(start = 3) sets start;  <m> = c.x.start = 3 becomes the equation b.c.x = 3 and leaves start
    unset; both are accepted;  <m> = c(x(start = 3)) is rejected *)
